@@ -44,7 +44,12 @@ def _slice(args):
     P = lib.import_repo()
     import bundled
     import pollute
-    other, look = pollute.pollute(P)   # other grammars redefining core / meta names must not change the reader
+    try:
+        other, look = pollute.pollute(P)   # other grammars redefining core / meta names must not change the reader
+    except Exception as e:  # noqa - the reader refuses valid ABNF (in a process that has parsed before)
+        text = 'CRLF = %x0D.0A / %x0A'
+        return [("rule", text, 0, "exc:%s while a grammar class loads valid rules in a process that has parsed before" % type(e).__name__,
+                 "ok %d" % len(text))]
     rng = random.Random(seed * 1000 + k)
     sg = bundled.SentenceGen(P, rng, maxlen=70)
     g = c04.Gen(rng)
@@ -90,7 +95,7 @@ def run(ctx):
     exl = ctx.budget(2, 3)
     nsl = 24
     with mp.Pool(16) as pool:
-        parts = pool.map(_slice, [(ctx.seed, per, k, nsl, exl) for k in range(nsl)])
+        parts = lib.safe_map(pool, _slice, [(ctx.seed, per, k, nsl, exl) for k in range(nsl)])
     found = False
     rep = 0
     evals = 0
